@@ -164,7 +164,7 @@ pub fn plan(prop: &str) -> Option<Plan> {
         "C16" => Plan { quick_runs: 400_000, thorough_runs: 6_000_000, ..p(
             "C16",
             vec![("e2pay", 1, false)],
-            vec![],
+            vec![("e2pay-hostile", 1, false)],
             vec!["c16.pay-returned"],
             "a run is non-trivial if the pay wrapper returned (real PayPaymentProvider::pay against the pay-command model)",
         )},
